@@ -803,9 +803,9 @@ def check_structure(data: bytes) -> tuple[list[isobox.Box] | None, str | None, s
     return boxes, None, None
 
 
-def blame(orig: bytes, out: bytes, infos: list[dict] | None = None) -> tuple[str, str, str]:
+def blame(orig: bytes, out: bytes, infos: list[dict] | None = None) -> list[tuple[str, str, str]]:
     """Compares the re-encoded bytes with the original box by box.
-    Returns (box label, what, detail): the innermost box whose bytes differ and how."""
+    Returns [(box label, what, detail)]: every innermost box whose own bytes differ and how."""
     try:
         a = walk(orig)
     except BoxError as exc:       # the input itself must be well-formed: harness problem
@@ -819,57 +819,92 @@ def blame(orig: bytes, out: bytes, infos: list[dict] | None = None) -> tuple[str
         for x in iter_boxes(a):
             if x.start <= k < x.end:
                 lab = box_label(x)
-                if form_of(x) != "32" and k < x.start + x.hdr:
-                    return "header", _form_name(x) + "/output-does-not-nest", f"{x!r}: {exc}"
-        return lab, "output-does-not-nest", f"first difference at byte {k}; {exc}"
-    return _blame_lists(a, b, "file", infos)
+        return [(lab, "output-does-not-nest", f"first difference at byte {k} (in {lab}); {exc}")]
+    res: list[tuple[str, str, str]] = []
+    _blame_lists(a, b, "file", infos, res)
+    if not res:
+        res.append(("file", "bytes-differ", "no box-level difference found"))
+    return res
 
 
 def _form_name(x) -> str:
     return {"64": "largesize", "0": "size0", "32": "size32"}[form_of(x)]
 
 
-def _blame_lists(a, b, plabel, infos):
-    if len(a) != len(b):
-        ta = [box_label(x) for x in a]
-        tb = [box_label(x) for x in b]
+def _leaf_diff(lab, x, px, py, base, infos, res):
+    """px/py: the bytes to compare (whole leaf box, or the fixed part of a container); base: file offset of px[0]."""
+    if px == py:
+        return
+    if len(px) != len(py):
+        what = "re-encoded-shorter" if len(py) < len(px) else "re-encoded-longer"
+    else:
+        what = "bytes-differ"
+    k = next((i for i in range(min(len(px), len(py))) if px[i] != py[i]), min(len(px), len(py)))
+    fname = _field_at(infos, base + k) if infos else None
+    if fname:
+        what += "/" + fname
+    res.append((lab, what, f"{x!r} first difference at offset {base + k - x.start} of the box: "
+                           f"in {px[max(0, k - 8):k + 24].hex()} out {py[max(0, k - 8):k + 24].hex()} "
+                           f"({len(px)} -> {len(py)} bytes)"))
+
+
+POSITION_FIELDS = {("trun", "data_offset"), ("saio", "offset"), ("tfhd", "base_data_offset")}
+
+
+def _blame_lists(a, b, plabel, infos, res, top=None):
+    ta = [box_label(x) for x in a]
+    tb = [box_label(x) for x in b]
+    if ta != tb:
         if sorted(ta) == sorted(tb):
-            return plabel, "children-reordered", f"{ta} -> {tb}"
-        return plabel, "children-count-differs", f"{ta} -> {tb}"
+            res.append((plabel, "children-reordered", f"{ta} -> {tb}"))
+        else:
+            res.append((plabel, "children-differ", f"{ta} -> {tb}"))
+        return
     for x, y in zip(a, b):
         if x.raw == y.raw:
             continue
-        if x.type != y.type or x.usertype != y.usertype:
-            ta = [box_label(q) for q in a]
-            tb = [box_label(q) for q in b]
-            if sorted(ta) == sorted(tb):
-                return plabel, "children-reordered", f"{ta} -> {tb}"
-            return plabel, "child-type-differs", f"{ta} -> {tb}"
         lab = box_label(x)
-        fx, fy = form_of(x), form_of(y)
-        if fx != fy:
-            return "header", f"{_form_name(x)}/re-encoded-as-{_form_name(y)}", \
-                f"{x!r} ({lab}) header {x.data[x.start:x.start + x.hdr].hex()} -> {y.data[y.start:y.start + y.hdr].hex()}"
+        if form_of(x) != form_of(y):
+            res.append(("header", f"{_form_name(x)}/re-encoded-as-{_form_name(y)}",
+                        f"{x!r} ({lab}) header {x.data[x.start:x.start + x.hdr].hex()} -> {y.data[y.start:y.start + y.hdr].hex()}"))
+        if x.usertype != y.usertype:
+            res.append((lab, "bytes-differ/usertype", f"{x!r}"))
+        tx, ty = top or (x, y)
         if x.children or y.children:
             pre_x = x.data[x.start + x.hdr:(x.children[0].start if x.children else x.end)]
             pre_y = y.data[y.start + y.hdr:(y.children[0].start if y.children else y.end)]
-            if pre_x == pre_y:
-                return _blame_lists(x.children, y.children, lab, infos)
-        # a leaf (or the fixed part of a container) differs
-        px, py = x.raw, y.raw
-        if len(px) != len(py):
-            what = "re-encoded-shorter" if len(py) < len(px) else "re-encoded-longer"
-            k = next((i for i in range(min(len(px), len(py))) if px[i] != py[i] and i >= 4), min(len(px), len(py)))
+            _leaf_diff(lab, x, pre_x, pre_y, x.start + x.hdr, infos, res)
+            _blame_lists(x.children, y.children, lab, infos, res, (tx, ty))
         else:
-            what = "bytes-differ"
-            k = next(i for i in range(len(px)) if px[i] != py[i])
-        fname = _field_at(infos, x.start + k) if infos else None
-        if fname:
-            what += "/" + fname
-        return lab, what, (f"{x!r} first difference at box offset {k}: "
-                           f"in {px[max(0, k - 8):k + 24].hex()} out {py[max(0, k - 8):k + 24].hex()} "
-                           f"(box {len(px)} -> {len(py)} bytes)")
-    return plabel, "identical", ""
+            # compare without the size field, whose change is a consequence
+            n = len(res)
+            _leaf_diff(lab, x, x.data[x.start + x.hdr:x.end], y.data[y.start + y.hdr:y.end], x.start + x.hdr, infos, res)
+            if len(res) > n and (tx.start != ty.start or tx.size != ty.size):
+                # the fragment moved or changed size because another box was re-encoded with a different length;
+                # a rewritten position-dependent field is then a consequence, not a cause
+                l2, what, det = res[n]
+                if (l2, what.split("/")[-1]) in POSITION_FIELDS or _is_position_field(x, y, lab):
+                    res[n] = (l2, "consequence:" + what, det)
+
+
+def _is_position_field(x, y, lab) -> bool:
+    """without a field map (fixtures): do the two boxes differ only in their position-dependent field?"""
+    try:
+        if lab == "trun":
+            p, q = isobox.trun(x), isobox.trun(y)
+            p["data_offset"] = q["data_offset"] = None
+            return p == q
+        if lab == "saio":
+            p, q = isobox.saio(x), isobox.saio(y)
+            p["offsets"] = q["offsets"] = None
+            return p == q
+        if lab == "tfhd":
+            p, q = isobox.tfhd(x), isobox.tfhd(y)
+            p["base_data_offset"] = q["base_data_offset"] = None
+            return p == q
+    except Exception:
+        return False
+    return False
 
 
 def _field_at(infos, pos):
@@ -910,7 +945,7 @@ def strategies(max_frags: int = 2):
     matrix = st.one_of(st.just(MATRIX_ID), st.lists(u(32), min_size=9, max_size=9))
     # 64-bit creation/modification times: seconds since 1904; 32-bit range always representable
     time32 = st.one_of(st.sampled_from([0, 1, 2**32 - 1, 2**31, 3786825600]), st.integers(0, 2**32 - 1))
-    time64 = st.one_of(time32, time32, time32, u(64))
+    time64 = st.one_of(*([time32] * 9), u(64))
 
     def with_hdr(strategy):
         return st.tuples(strategy, hdr_form).map(lambda t: t[0] if t[1] == "32" else {**t[0], "hdr": t[1]})
@@ -993,7 +1028,7 @@ def strategies(max_frags: int = 2):
     @st.composite
     def emsg(draw):
         v = draw(vsel(1))
-        d = {"t": "emsg", "v": v, "f": 0, "scheme_id_uri": draw(uri_s), "value": draw(st.one_of(ascii_s, ascii_s, utf8_s)),
+        d = {"t": "emsg", "v": v, "f": 0, "scheme_id_uri": draw(uri_s), "value": draw(st.one_of(*([ascii_s] * 11), utf8_s)),
              "timescale": draw(u(32)), "event_duration": draw(u(32)), "id": draw(u(32)), "data": draw(hexs(0, 30))}
         if v == 0:
             d["presentation_time_delta"] = draw(u(32))
@@ -1152,7 +1187,7 @@ def strategies(max_frags: int = 2):
             if draw(st.booleans()):
                 kids.append(draw(btrt))
             return {"t": "stpp", "data_reference_index": dri,
-                    "namespace": draw(st.one_of(st.sampled_from(["http://www.w3.org/ns/ttml", "http://www.w3.org/ns/ttml urn:ebu:tt:metadata"]), utf8_s)),
+                    "namespace": draw(st.one_of(st.sampled_from(["http://www.w3.org/ns/ttml", "http://www.w3.org/ns/ttml urn:ebu:tt:metadata"]), uri_s)),
                     "schema_location": draw(st.one_of(st.just(""), ascii_s)),
                     "auxiliary_mime_types": draw(st.one_of(st.just(""), st.just("image/png"), ascii_s)), "c": kids}
         kids = [draw(with_hdr(vttC))]
@@ -1227,7 +1262,7 @@ def strategies(max_frags: int = 2):
             tfhd_s.update(base_data_offset="auto", base_at="mdat")
         elif layout == "explicit-far":
             tf |= 0x1
-            tfhd_s.update(base_data_offset="auto", base_delta=draw(st.sampled_from([100000, 2**32, 2**31 + 5])))
+            tfhd_s.update(base_data_offset="auto", base_delta=draw(st.sampled_from([100000, 12345, 2**31 - 100000])))
         tfhd_s["f"] = tf
         if tf & 0x2:
             tfhd_s["sample_description_index"] = draw(st.one_of(st.just(1), u(32)))
